@@ -11,6 +11,7 @@ import (
 	"sort"
 	"strings"
 	"sync"
+	"sync/atomic"
 	"testing"
 	"time"
 
@@ -267,11 +268,64 @@ func TestC11Race(t *testing.T) {
 			cl.Destroy()
 		})
 	}
+	// S4: a goroutine logs in again and again while others request tickets with a TGT that needs renewing at
+	// every request: renewals finish on sessions that a new login has replaced in the meantime
+	c11Watchdog("relogin-during-renewal", 45*time.Second, func() {
+		pol := simPolicy{maxLife: 30 * time.Second, backdate: 4 * time.Minute, maxRenew: time.Hour, sessionEt: 18}
+		sim := newKDCSim(pol, 24*time.Hour, NewRNG(6))
+		defer sim.close()
+		cfg, err := config.NewFromString(sim.conf(" ticket_lifetime = 24h\n renew_lifetime = 72h\n"))
+		if err != nil {
+			t.Fatal(err)
+		}
+		cl := client.NewWithPassword(c09User, "TEST.GOKRB5", clientPassword, cfg, client.DisablePAFXFAST(true))
+		if err := cl.Login(); err != nil {
+			fmt.Printf("C11-NOTE login failed: %v\n", err)
+		}
+		stop := time.Now().Add(dur)
+		var wg sync.WaitGroup
+		var reqs, logins int64
+		wg.Add(1)
+		go func() {
+			defer wg.Done()
+			for time.Now().Before(stop) {
+				cl.Login()
+				atomic.AddInt64(&logins, 1)
+				time.Sleep(3 * time.Millisecond)
+			}
+		}()
+		// ... and others read the client's state (Print takes the sessions lock, then each session's)
+		for g := 0; g < 2; g++ {
+			wg.Add(1)
+			go func() {
+				defer wg.Done()
+				for time.Now().Before(stop) {
+					cl.Print(io.Discard)
+					cl.IsConfigured()
+				}
+			}()
+		}
+		for g := 0; g < 6; g++ {
+			wg.Add(1)
+			go func(g int) {
+				defer wg.Done()
+				for i := 0; time.Now().Before(stop); i++ {
+					// a name that is not in the ticket cache: every request needs the TGT
+					cl.GetServiceTicket(fmt.Sprintf("HTTP/h%d-%d.test.gokrb5", g, i))
+					atomic.AddInt64(&reqs, 1)
+				}
+			}(g)
+		}
+		wg.Wait()
+		cl.Destroy()
+		fmt.Printf("C11-STATS relogin-during-renewal requests=%d logins=%d\n", reqs, logins)
+	})
 	// S2: one configuration shared by goroutines resolving servers and realms, and by two clients
 	c11Watchdog("shared-config", 60*time.Second, func() {
 		sim := newKDCSim(simPolicy{maxLife: time.Hour, sessionEt: 18}, 24*time.Hour, rng)
 		defer sim.close()
 		conf := sim.conf(" ticket_lifetime = 24h\n")
+		conf = strings.Replace(conf, "[domain_realm]", " TWICE.KDCS = {\n  kdc = k1.twice:88\n  kdc = k2.twice:88\n  kdc = k1.twice:88\n  kpasswd_server = p1.twice:464\n  kpasswd_server = p1.twice:464\n }\n[domain_realm]", 1)
 		conf = strings.Replace(conf, "[domain_realm]", " MANY.KDCS = {\n  kdc = k1.many:88\n  kdc = k2.many:88\n  kdc = k3.many:88\n  kdc = k4.many:88\n  kpasswd_server = p1.many:464\n  kpasswd_server = p2.many:464\n }\n[domain_realm]", 1)
 		cfg, err := config.NewFromString(conf)
 		if err != nil {
@@ -289,6 +343,15 @@ func TestC11Race(t *testing.T) {
 					}
 					n, m, err = cfg.GetKpasswdServers("MANY.KDCS", true)
 					if err != nil || n != 2 || !isPerm(m, []string{"p1.many:464", "p2.many:464"}) {
+						fmt.Printf("C11-KPASSWD-NOT-A-PERMUTATION %v %v %v\n", n, m, err)
+					}
+					// an address configured twice is returned twice (what is returned is a permutation of the list)
+					n, m, err = cfg.GetKDCs("TWICE.KDCS", i%2 == 0)
+					if err != nil || n != 3 || !isPerm(m, []string{"k1.twice:88", "k2.twice:88", "k1.twice:88"}) {
+						fmt.Printf("C11-KDCS-NOT-A-PERMUTATION %v %v %v\n", n, m, err)
+					}
+					n, m, err = cfg.GetKpasswdServers("TWICE.KDCS", true)
+					if err != nil || n != 2 || !isPerm(m, []string{"p1.twice:464", "p1.twice:464"}) {
 						fmt.Printf("C11-KPASSWD-NOT-A-PERMUTATION %v %v %v\n", n, m, err)
 					}
 					cfg.ResolveRealm("x.other.realm")
